@@ -86,7 +86,13 @@ def configure(srcdir, builddir, env, backend='make', extra=(), cwd=None,
     return run_bfg(args, cwd or srcdir, env, launcher)
 
 
+MAKEGUARD = os.path.join(VERIF, 'tools', 'makeguard.mk')
+
+
 def run_make(builddir, env, targets=(), extra=()):
+    # tools/makeguard.mk turns an endless chain of make re-executions (a
+    # Makefile that never becomes up to date) into an error after 8 restarts
+    env = dict(env, MAKEFILES=MAKEGUARD)
     return run(['make', '--no-print-directory'] + list(extra) + list(targets),
                builddir, env)
 
